@@ -923,33 +923,41 @@ pub fn srand(g: &mut Gen, r: &mut Rng, cases: usize, max_ops: usize) {
 /// S-small: EVERY schedule of a given depth over 2 replicas / 2 keys / 2 values and the op alphabet
 /// {write(r,k,v), pull(i<-j), hash(r)}, for every level assignment of the two keys, followed by two
 /// quiescent rounds; both merge rules.
-pub fn ssmall(g: &mut Gen, depth: usize, shard: usize, nshards: usize) {
+pub fn ssmall(g: &mut Gen, nrep: usize, depth: usize, shard: usize, nshards: usize) {
     let n = 2usize;
     let base = 16u8;
     let mut alphabet: Vec<String> = vec![];
-    for r in 0..2 {
+    for r in 0..nrep {
         for k in 0..2 {
             for v in 1..=2u8 {
                 alphabet.push(format!("W {r} {k} {v}"));
             }
         }
     }
-    alphabet.push("P 0 1".into());
-    alphabet.push("P 1 0".into());
-    alphabet.push("H 0".into());
-    alphabet.push("H 1".into());
+    for i in 0..nrep {
+        for j in 0..nrep {
+            if i != j {
+                alphabet.push(format!("P {i} {j}"));
+            }
+        }
+    }
+    for r in 0..nrep {
+        alphabet.push(format!("H {r}"));
+    }
     let total = alphabet.len().pow(depth as u32);
     let mut idx = 0usize;
     for lv in 0..9u32 {
         let kds = [digest_for_level(lv % 3, base, n, 0), digest_for_level(lv / 3, base, n, 2)];
-        for m in ["join", "peer"] {
+        let merges: &[&str] = if nrep == 2 { &["join", "peer"] } else { &["join"] };
+        for m in merges {
             for code in 0..total {
                 idx += 1;
                 if idx % nshards != shard {
                     continue;
                 }
-                g.op(format!("rnew 0 {base} n={n}"));
-                g.op(format!("rnew 1 {base} n={n}"));
+                for i in 0..nrep {
+                    g.op(format!("rnew {i} {base} n={n}"));
+                }
                 g.cases += 1;
                 let mut c = code;
                 let mut sched = vec![];
@@ -978,7 +986,7 @@ pub fn ssmall(g: &mut Gen, depth: usize, shard: usize, nshards: usize) {
             }
         }
     }
-    g.sample(format!("ssmall: every schedule of depth {depth} over {} ops x 9 level assignments x 2 merges", alphabet.len()));
+    g.sample(format!("ssmall: {nrep} replicas, every schedule of depth {depth} over {} ops x 9 level assignments", alphabet.len()));
 }
 
 fn a0_join(w: &BTreeMap<Vec<u8>, Vec<u8>>) -> BTreeMap<Vec<u8>, Vec<u8>> {
